@@ -33,8 +33,8 @@ where
     pub fn optimize(mut self, path: Path) -> Vec<Path> {
         self.solutions.push(path);
 
+        // NOTE: keep all found paths to not visit them again (rounding errors can make two paths "improve" each other)
         while let Some(improved_path) = self.solutions.last().and_then(|p| self.improve(p.iter().copied())) {
-            self.solutions.clear();
             self.solutions.push(improved_path);
         }
 
